@@ -2,7 +2,7 @@
 #include "check.hpp"
 #include "gen.hpp"
 
-struct CallView { int opi; const ExecOp *op; World w; size_t op_index; };
+struct CallView { int opi; const ExecOp *op; World w; size_t op_index; int batch_threads = 0; };
 // Exec operations of a plan with the simulated OS state each one starts from
 // (SetConfig / Mutate applied; effects of the calls themselves are not tracked).
 std::vector<CallView> calls_of(const Plan &p);
